@@ -38,6 +38,8 @@ type Case struct {
 	Lib    string `json:"library_value,omitempty"`
 	Ref    string `json:"reference_value,omitempty"`
 	Class  string `json:"invalid_class,omitempty"`
+	// clause "history": the mutator calls applied to a fresh object at Dist
+	History []Step `json:"history,omitempty"`
 }
 
 type reporter struct {
@@ -913,7 +915,7 @@ func (rp *reporter) checkMulti(f *family, d Dist, h string, obj any, rank int64,
 			}
 		}
 		// wrong dimension: must be refused loudly
-		if len(pts) > 0 && f.kind != "niw" && !(f.name == "scalariid" && d.p(0) == -1) {
+		if len(pts) > 0 && f.kind != "niw" && !f.anyLen && !(f.name == "scalariid" && d.p(0) == -1) {
 			n, m := f.dims(d)
 			var x []float64
 			if f.kind == "vector" {
@@ -1311,7 +1313,7 @@ func altOf(d Dist, th bool) Dist {
 		}
 		if !f.pNotParam {
 			for _, o := range f.valid(th) {
-				if len(o.P) == len(d.P) && fmt.Sprint(o.P) != fmt.Sprint(d.P) {
+				if len(o.P) == len(d.P) && fmt.Sprint(o.P) != fmt.Sprint(d.P) && (f.compat == nil || f.compat(d, o)) {
 					a.P = o.P
 					break
 				}
@@ -1320,7 +1322,7 @@ func altOf(d Dist, th bool) Dist {
 		return a
 	}
 	for _, o := range f.valid(th) {
-		if len(o.P) == len(d.P) && fmt.Sprint(o.P) != fmt.Sprint(d.P) && (f.pclass == nil || f.pclass(o) == pc) {
+		if len(o.P) == len(d.P) && fmt.Sprint(o.P) != fmt.Sprint(d.P) && (f.pclass == nil || f.pclass(o) == pc) && (f.compat == nil || f.compat(d, o)) {
 			return o
 		}
 	}
